@@ -272,7 +272,9 @@ pub fn execute(id: usize, tree: &Tree, run: &Run) -> Outcome {
         v
     });
     let t0 = std::time::Instant::now();
-    let limit = std::time::Duration::from_secs(std::env::var("MC_RUN_TIMEOUT_S").ok().and_then(|s| s.parse().ok()).unwrap_or(120));
+    // 120 s, plus 60 s per MiB of input (the multi-megabyte stdin inputs take a while on a loaded machine)
+    let per_mib = run.stdin.as_ref().map_or(0, |b| b.len() / (1024 * 1024)) as u64 * 60;
+    let limit = std::time::Duration::from_secs(std::env::var("MC_RUN_TIMEOUT_S").ok().and_then(|s| s.parse().ok()).unwrap_or(120) + per_mib);
     let mut nap = 100u64;
     let status = loop {
         match child.try_wait() {
